@@ -84,7 +84,7 @@ theorem C05_rx_done (fuel : Nat) (h : Handle) (c : Chip) (wf : c.WF) (hl : c.isL
       s'.chip.lora.rd 0x12 = c.lora.rd 0x12 &&& ~~~ c.lora.rd 0x12 ∧
       s'.chip.buf = c.buf ∧ s'.chip.shared = c.shared ∧ s'.chip.fsk = c.fsk) := by
   rw [wp_handleInterrupt_lora _ _ _ _ hm]
-  unfold loraHandleInterrupt
+  unfold loraHandleInterrupt loraReadGuard
   simp only [wp_bind, wp_rread, wp_swrite, wp_getH, show Gen.REGIRQFLAGS = 0x12 from rfl,
     readN_one _ 0x12 (by decide), show (0x12 % 128) = 0x12 from rfl, peek_lora _ _ hl (show inPage 0x12 = true by decide),
     be32_single, writeN_one, flag_consts.1, flag_consts.2.1, flag_consts.2.2.1, hcad, hcrc, hrx, ne_eq,
@@ -94,7 +94,7 @@ theorem C05_rx_done (fuel : Nat) (h : Handle) (c : Chip) (wf : c.WF) (hl : c.isL
   rw [wp_attempt, wp_loraRxReadPayload _ _ _ _ _ wf1 (by exact hl) hm hexp hcap]
   simp only [rd_wr_ne _ 0x12 0x13 _ (by decide), rd_wr_ne _ 0x12 0x10 _ (by decide), loraPacket]
   unfold rxCallback
-  simp only [wp_bind, wp_getH, hcb, ↓reduceIte, wp_cb, wp_modH]
+  simp only [wp_bind, wp_pure, wp_getH, hcb, ↓reduceIte, wp_cb, wp_modH]
   have hlen : ((List.range (c.lora.rd 0x13).toNat).map (fun i => c.buf.rd (((c.lora.rd 0x10).toNat + i) % 256))).length
       = (c.lora.rd 0x13).toNat := by simp
   have hn : (c.lora.rd 0x13).toNat ≤ 255 := by have := (c.lora.rd 0x13).toNat_lt; omega
